@@ -284,57 +284,81 @@ func ruleBuildGuards(c *Ctx) {
 		return nil
 	}
 	nst := 0
-	for _, b := range f.Blocks {
-		for _, in := range b.Instrs {
-			st, ok := in.(*ssa.Store)
-			if !ok {
-				continue
-			}
-			slot := isTable(st.Addr)
-			if slot == nil {
-				continue
-			}
-			nst++
-			guarded := false
-			for _, d := range f.Blocks {
-				iff, ok := d.Instrs[len(d.Instrs)-1].(*ssa.If)
+	for _, g := range structBuildFuncs(c.P) {
+		for _, b := range g.Blocks {
+			for _, in := range b.Instrs {
+				st, ok := in.(*ssa.Store)
 				if !ok {
 					continue
 				}
-				cmp, ok := iff.Cond.(*ssa.BinOp)
-				if !ok || (cmp.Op != token.NEQ && cmp.Op != token.EQL) || !(isNilConst(cmp.Y) || isNilConst(cmp.X)) {
+				slot := isTable(st.Addr)
+				if slot == nil {
 					continue
 				}
-				v := cmp.X
-				if isNilConst(v) {
-					v = cmp.Y
+				nst++
+				guarded := false
+				for _, d := range g.Blocks {
+					iff, ok := d.Instrs[len(d.Instrs)-1].(*ssa.If)
+					if !ok {
+						continue
+					}
+					cmp, ok := iff.Cond.(*ssa.BinOp)
+					if !ok || (cmp.Op != token.NEQ && cmp.Op != token.EQL) || !(isNilConst(cmp.Y) || isNilConst(cmp.X)) {
+						continue
+					}
+					v := cmp.X
+					if isNilConst(v) {
+						v = cmp.Y
+					}
+					ld, ok := v.(*ssa.UnOp)
+					if !ok {
+						continue
+					}
+					fa, ok := ld.X.(*ssa.FieldAddr)
+					if !ok || fieldName(fa) != "codec" {
+						continue
+					}
+					tslot := isTable(fa.X)
+					if tslot == nil || !sameSlot(tslot, slot) {
+						continue
+					}
+					freeIdx := 1 // NEQ nil: false branch = slot free
+					if cmp.Op == token.EQL {
+						freeIdx = 0
+					}
+					if dominatedByBranch(d, freeIdx, b) {
+						guarded = true
+					}
 				}
-				ld, ok := v.(*ssa.UnOp)
-				if !ok {
-					continue
-				}
-				fa, ok := ld.X.(*ssa.FieldAddr)
-				if !ok || fieldName(fa) != "codec" {
-					continue
-				}
-				tslot := isTable(fa.X)
-				if tslot == nil || !sameSlot(tslot, slot) {
-					continue
-				}
-				freeIdx := 1 // NEQ nil: false branch = slot free
-				if cmp.Op == token.EQL {
-					freeIdx = 0
-				}
-				if dominatedByBranch(d, freeIdx, b) {
-					guarded = true
-				}
+				c.Oblige("X.dom.dup", guarded, st.Pos(), ssaFuncName(g), "fieldsByIndex[index] = ... requires the slot to be free",
+					"two fields sharing an index must be an error: the store into the index table must be dominated by the test that the slot is still empty", nil)
 			}
-			c.Oblige("X.dom.dup", guarded, st.Pos(), name, "fieldsByIndex[index] = ... requires the slot to be free",
-				"two fields sharing an index must be an error: the store into the index table must be dominated by the test that the slot is still empty", nil)
 		}
 	}
 	c.Floor("X.dom.dup", 1)
 	c.Floor("X.dom.build", 5)
+}
+
+// structBuildFuncs: BuildStructCodec and the unexported helpers of its package it calls
+// directly (a part of the builder extracted into a helper is still the builder).
+func structBuildFuncs(p *Prog) []*ssa.Function {
+	f := p.ssaFunc("plenccodec.BuildStructCodec")
+	if f == nil {
+		return nil
+	}
+	out := []*ssa.Function{f}
+	seen := map[*ssa.Function]bool{f: true}
+	for _, b := range f.Blocks {
+		for _, in := range b.Instrs {
+			if call, ok := in.(*ssa.Call); ok {
+				if cal := call.Common().StaticCallee(); cal != nil && cal.Pkg == f.Pkg && !seen[cal] && isUnexportedFunc(cal) && len(cal.Blocks) > 0 {
+					seen[cal] = true
+					out = append(out, cal)
+				}
+			}
+		}
+	}
+	return out
 }
 
 // ruleIndexRange: BOUND over BuildStructCodec with strconv.Atoi as the taint
@@ -378,19 +402,83 @@ func ruleIndexRange(c *Ctx) {
 			"a negative index parsed from the tag would index the field table out of range (panic) instead of being reported as an error", nil)
 	}
 	c.Floor("B.indexrange", 2)
-	// table allocation: size = maxIndex + 1, non-negative, no wrap
-	for _, b := range f.Blocks {
-		for _, in := range b.Instrs {
-			ms, ok := in.(*ssa.MakeSlice)
-			if !ok || typeName(ms.Type().Underlying().(*types.Slice).Elem()) != "shortDesc" {
+	// table allocation: size = maxIndex + 1, non-negative, no wrap. The allocation may sit in a
+	// helper called from the builder with the maximum as an argument (size = param + k): it is then
+	// judged at the call site, with the argument in place of the parameter.
+	type allocSite struct {
+		ms  *ssa.MakeSlice
+		blk *ssa.BasicBlock // block of the builder where the size is judged
+		sz  Lin
+		ok  bool
+		ex  bool
+	}
+	var sites []allocSite
+	for _, g := range structBuildFuncs(p) {
+		for _, b := range g.Blocks {
+			for _, in := range b.Instrs {
+				ms, ok := in.(*ssa.MakeSlice)
+				if !ok || typeName(ms.Type().Underlying().(*types.Slice).Elem()) != "shortDesc" {
+					continue
+				}
+				if g == f {
+					ex := true
+					if bo, isBin := ms.Len.(*ssa.BinOp); isBin {
+						ex = a.exact[bo]
+					}
+					sites = append(sites, allocSite{ms, b, a.lin(ms.Len), true, ex})
+					continue
+				}
+				// helper: Len must be param (+ const)
+				var prm *ssa.Parameter
+				k := int64(0)
+				switch x := ms.Len.(type) {
+				case *ssa.Parameter:
+					prm = x
+				case *ssa.BinOp:
+					if pp, ok := x.X.(*ssa.Parameter); ok && x.Op == token.ADD {
+						if kc, ok := x.Y.(*ssa.Const); ok && kc.Value != nil {
+							prm, k = pp, kc.Int64()
+						}
+					}
+				}
+				site := allocSite{ms: ms}
+				if prm != nil {
+					pi := -1
+					for i, q := range g.Params {
+						if q == prm {
+							pi = i
+						}
+					}
+					for _, cb := range f.Blocks {
+						for _, cin := range cb.Instrs {
+							if call, ok := cin.(*ssa.Call); ok && call.Common().StaticCallee() == g && pi >= 0 {
+								if r, ok2 := a.lin(call.Common().Args[pi]).add(linConst(k)); ok2 {
+									// no wrap: arg + k <= MaxInt64 is implied by the range facts proved below (arg <= 2^29)
+									site.blk, site.sz, site.ok, site.ex = cb, r, true, true
+								}
+							}
+						}
+					}
+				}
+				sites = append(sites, site)
+			}
+		}
+	}
+	for _, site := range sites {
+		ms, b := site.ms, site.blk
+		{
+			if !site.ok {
+				c.Oblige("B.indexrange", false, ms.Pos(), name, "index table size maxIndex+1 is positive and does not wrap", "the size of the table is not the running maximum (+ constant) handed over by the builder: undecided", nil)
 				continue
 			}
-			sz := a.lin(ms.Len)
+			sz := site.sz
 			q, ok := geq(sz, linConst(1))
 			pr := a.prove(b, nil, q, ok)
-			exact := true
-			if bo, isBin := ms.Len.(*ssa.BinOp); isBin {
-				exact = a.exact[bo]
+			exact := site.ex
+			if exact && site.ms.Block().Parent() != f {
+				// the helper adds k to its parameter: prove the sum does not wrap at the call site
+				q2, ok2 := leq(sz, linConst(1<<40))
+				exact = a.prove(b, nil, q2, ok2)
 			}
 			c.Oblige("B.indexrange", pr && exact, ms.Pos(), name, "index table size maxIndex+1 is positive and does not wrap",
 				fmt.Sprintf("make([]shortDesc, maxIndex+1): proved >= 1: %v, addition proved not to overflow: %v", pr, exact), nil)
